@@ -22,6 +22,7 @@
 package orefafs
 
 import (
+	"errors"
 	"io/fs"
 	"os"
 	"strings"
@@ -54,13 +55,21 @@ func (vfs *OrefaFS) Chdir(dir string) error {
 
 	absPath, _ := vfs.Abs(dir)
 
+	key := vfs.absPath(dir)
+
 	verifYield(&vfs.mu, false)
 	vfs.mu.RLock()
-	nd, ok := vfs.nodes[vfs.absPath(dir)]
+	nd, ok := vfs.nodes[key]
+
+	var lerr error
+	if !ok {
+		lerr = vfs.lookupErr(key, vfs.err.NoSuchFile)
+	}
+
 	vfs.mu.RUnlock()
 
 	if !ok {
-		return &fs.PathError{Op: op, Path: dir, Err: vfs.err.NoSuchFile}
+		return &fs.PathError{Op: op, Path: dir, Err: lerr}
 	}
 
 	if !nd.isDir() {
@@ -108,7 +117,7 @@ func (vfs *OrefaFS) Chmod(name string, mode fs.FileMode) error {
 	nd, ok := vfs.nodes[absPath]
 
 	if !ok {
-		return &fs.PathError{Op: op, Path: name, Err: vfs.err.NoSuchFile}
+		return &fs.PathError{Op: op, Path: name, Err: vfs.lookupErr(absPath, vfs.err.NoSuchFile)}
 	}
 
 	verifYield(&nd.mu, true)
@@ -143,7 +152,7 @@ func (vfs *OrefaFS) Chown(name string, uid, gid int) error {
 	nd, ok := vfs.nodes[absPath]
 
 	if !ok {
-		return &fs.PathError{Op: op, Path: name, Err: vfs.err.NoSuchFile}
+		return &fs.PathError{Op: op, Path: name, Err: vfs.lookupErr(absPath, vfs.err.NoSuchFile)}
 	}
 
 	verifYield(&nd.mu, true)
@@ -173,7 +182,7 @@ func (vfs *OrefaFS) Chtimes(name string, atime, mtime time.Time) error {
 	nd, ok := vfs.nodes[absPath]
 
 	if !ok {
-		return &fs.PathError{Op: op, Path: name, Err: vfs.err.NoSuchFile}
+		return &fs.PathError{Op: op, Path: name, Err: vfs.lookupErr(absPath, vfs.err.NoSuchFile)}
 	}
 
 	verifYield(&nd.mu, true)
@@ -327,7 +336,7 @@ func (vfs *OrefaFS) Lchown(name string, uid, gid int) error {
 	nd, ok := vfs.nodes[absPath]
 
 	if !ok {
-		return &fs.PathError{Op: op, Path: name, Err: vfs.err.NoSuchFile}
+		return &fs.PathError{Op: op, Path: name, Err: vfs.lookupErr(absPath, vfs.err.NoSuchFile)}
 	}
 
 	verifYield(&nd.mu, true)
@@ -371,11 +380,11 @@ func (vfs *OrefaFS) Link(oldname, newname string) error {
 			}
 		}
 
-		return &os.LinkError{Op: op, Old: oldname, New: newname, Err: err}
+		return &os.LinkError{Op: op, Old: oldname, New: newname, Err: vfs.lookupErr(oAbsPath, err)}
 	}
 
 	if !nParentOk {
-		return &os.LinkError{Op: op, Old: oldname, New: newname, Err: vfs.err.NoSuchFile}
+		return &os.LinkError{Op: op, Old: oldname, New: newname, Err: vfs.lookupErr(nAbsPath, vfs.err.NoSuchFile)}
 	}
 
 	if !nParent.isDir() {
@@ -615,7 +624,7 @@ func (vfs *OrefaFS) OpenFile(name string, flag int, perm fs.FileMode) (avfs.File
 
 	if !childOk {
 		if !parentOk {
-			return (*OrefaFile)(nil), &fs.PathError{Op: op, Path: name, Err: vfs.err.NoSuchDir}
+			return (*OrefaFile)(nil), &fs.PathError{Op: op, Path: name, Err: vfs.lookupErr(absPath, vfs.err.NoSuchDir)}
 		}
 
 		if !parent.isDir() {
@@ -726,7 +735,7 @@ func (vfs *OrefaFS) Remove(name string) error {
 	parent, parentOk := vfs.nodes[dirName]
 
 	if !childOk || !parentOk {
-		return &fs.PathError{Op: op, Path: name, Err: vfs.err.NoSuchFile}
+		return &fs.PathError{Op: op, Path: name, Err: vfs.lookupErr(absPath, vfs.err.NoSuchFile)}
 	}
 
 	verifYield(&parent.mu, true)
@@ -792,6 +801,12 @@ func (vfs *OrefaFS) RemoveAll(path string) error {
 	parent, parentOk := vfs.nodes[dirName]
 
 	if !childOk || !parentOk {
+		// a path that does not exist is not an error, a path through a file is one (but not on Windows,
+		// where it is one of the "path not found" errors).
+		if err := vfs.lookupErr(absPath, nil); err != nil && !errors.Is(err, fs.ErrNotExist) {
+			return &fs.PathError{Op: "unlinkat", Path: path, Err: err}
+		}
+
 		return nil
 	}
 
@@ -848,7 +863,7 @@ func (vfs *OrefaFS) Rename(oldname, newname string) error {
 		oChild, oChildOk := vfs.nodes[oAbsPath]
 
 		if !oChildOk {
-			return &os.LinkError{Op: op, Old: oldname, New: newname, Err: vfs.err.NoSuchFile}
+			return &os.LinkError{Op: op, Old: oldname, New: newname, Err: vfs.lookupErr(oAbsPath, vfs.err.NoSuchFile)}
 		}
 
 		if oChild.isDir() && vfs.Clean(oldname) == vfs.Clean(newname) && vfs.OSType() != avfs.OsWindows {
@@ -867,12 +882,21 @@ func (vfs *OrefaFS) Rename(oldname, newname string) error {
 	nChild, nChildOk := vfs.nodes[nAbsPath]
 	nParent, nParentOk := vfs.nodes[nDirName]
 
-	if !oChildOk || !oParentOk || !nParentOk {
-		return &os.LinkError{Op: op, Old: oldname, New: newname, Err: vfs.err.NoSuchFile}
+	// The directories of both paths are looked up before the names themselves.
+	if !oParentOk || !oParent.isDir() {
+		return &os.LinkError{Op: op, Old: oldname, New: newname, Err: vfs.lookupErr(oAbsPath, vfs.err.NoSuchFile)}
+	}
+
+	if !nParentOk {
+		return &os.LinkError{Op: op, Old: oldname, New: newname, Err: vfs.lookupErr(nAbsPath, vfs.err.NoSuchFile)}
 	}
 
 	if !nParent.isDir() {
 		return &os.LinkError{Op: op, Old: oldname, New: newname, Err: vfs.err.NotADirectory}
+	}
+
+	if !oChildOk {
+		return &os.LinkError{Op: op, Old: oldname, New: newname, Err: vfs.err.NoSuchFile}
 	}
 
 	if nChildOk && nChild.isDir() {
@@ -1010,10 +1034,11 @@ func (vfs *OrefaFS) stat(path, op string) (fs.FileInfo, error) {
 		verifYield(&vfs.mu, false)
 		vfs.mu.RLock()
 		parent, parentOk := vfs.nodes[dirName]
+		lerr := vfs.lookupErr(absPath, vfs.err.NoSuchDir)
 		vfs.mu.RUnlock()
 
 		if !parentOk {
-			return nil, &fs.PathError{Op: op, Path: path, Err: vfs.err.NoSuchDir}
+			return nil, &fs.PathError{Op: op, Path: path, Err: lerr}
 		}
 
 		if parent.isDir() {
@@ -1097,7 +1122,7 @@ func (vfs *OrefaFS) Truncate(name string, size int64) error {
 			op = "open"
 		}
 
-		return &fs.PathError{Op: op, Path: name, Err: vfs.err.NoSuchFile}
+		return &fs.PathError{Op: op, Path: name, Err: vfs.lookupErr(absPath, vfs.err.NoSuchFile)}
 	}
 
 	if child.isDir() {
